@@ -1,4 +1,5 @@
 import ChiModel.Reduced
+import ChiModel.ReducedSegments
 set_option linter.unusedSectionVars false
 namespace ChiModel.Reduced
 variable {α : Type}
@@ -287,5 +288,246 @@ theorem C08_composite (n1 n2 : List String) (g : α) (ops : List (Req α)) (free
 example : fill (view ["a", "b", "c"] (0:Nat)
       (run ["a", "b", "c"] 0 [[("a", some 5)], [("a", some 7), ("c", some 9)], [("a", none)], [("b", some 1)]]))
       [10] = [10, 1, 9] := by decide
+
+/-! ## the parameter list changes during the life of the object (`ReducedPopulationModel.set_n_ids`) -/
+namespace Seg
+
+theorem fold_good (names : List String) (g : α) : ∀ (ops : List (Req α)) (st : St α) (f : String → Option α),
+    AllGood f names (view names g st) →
+    AllGood (ops.foldl netStep f) names (view names g (ops.foldl (fixStep names g) st))
+  | [], _, _, h => by simpa using h
+  | d :: ds, st, f, h => fold_good names g ds _ _ (step_good names g st f d h)
+
+/-- the invariant only reads the dictionary at the names of the list -/
+theorem allGood_congr (f f' : String → Option α) :
+    ∀ (names : List String) (c : List (Bool × α)), (∀ n ∈ names, f n = f' n) → AllGood f names c →
+      AllGood f' names c
+  | [], [], _, _ => trivial
+  | n :: ns, x :: xs, hf, h => by
+    refine ⟨?_, allGood_congr f f' ns xs (fun m hm => hf m (List.mem_cons_of_mem _ hm)) h.2⟩
+    have := hf n List.mem_cons_self
+    unfold Good at *
+    rw [← this]; exact h.1
+  | [], _ :: _, _, h => h.elim
+  | _ :: _, [], _, h => h.elim
+
+theorem lookupLast_nil (n : String) : lookupLast ([] : Req α) n = none := by
+  simp [lookupLast]
+
+theorem lookupLast_cons_of_notin (d : Req α) (k : String) (v : Option α) (n : String)
+    (h : ∀ p ∈ d, p.1 ≠ n) : lookupLast ((k, v) :: d) n = if k = n then some v else none := by
+  unfold lookupLast
+  rw [List.reverse_cons, List.find?_append]
+  have hnone : d.reverse.find? (fun p => p.1 == n) = none := by
+    rw [List.find?_eq_none]
+    intro p hp
+    have := h p (List.mem_reverse.mp hp)
+    simpa using this
+  rw [hnone]
+  by_cases hk : k = n <;> simp [hk]
+
+theorem lookupLast_cons_ne (d : Req α) (k : String) (v : Option α) (n : String) (hk : k ≠ n) :
+    lookupLast ((k, v) :: d) n = lookupLast d n := by
+  unfold lookupLast
+  rw [List.reverse_cons, List.find?_append]
+  cases h : d.reverse.find? (fun p => p.1 == n) with
+  | some x => simp
+  | none => simp [hk]
+
+theorem fixedPairs_keys (names : List String) : ∀ (c : List (Bool × α)) (p : String × Option α),
+    p ∈ fixedPairs names c → p.1 ∈ names := by
+  induction names with
+  | nil => intro c p h; cases c <;> simp [fixedPairs] at h
+  | cons n ns ih =>
+    intro c p h
+    cases c with
+    | nil => simp [fixedPairs] at h
+    | cons x cs =>
+      obtain ⟨b, v⟩ := x
+      cases b with
+      | true =>
+        simp only [fixedPairs, List.mem_cons] at h
+        rcases h with h | h
+        · subst h; simp
+        · exact List.mem_cons_of_mem _ (ih cs p h)
+      | false =>
+        simp only [fixedPairs] at h
+        exact List.mem_cons_of_mem _ (ih cs p h)
+
+theorem fixedPairs_allFree (g : α) : ∀ ks : List String,
+    fixedPairs ks (ks.map (fun _ => (false, g))) = ([] : Req α)
+  | [] => rfl
+  | _ :: ks => by
+    show fixedPairs ks (ks.map (fun _ => (false, g))) = []
+    exact fixedPairs_allFree g ks
+
+/-- the dictionary `set_n_ids` remembers says, for every name: its old fixed value if it was a fixed name of the
+    old list, nothing otherwise -/
+theorem lookupLast_fixedPairs (f : String → Option α) :
+    ∀ (names : List String) (c : List (Bool × α)), names.Nodup → AllGood f names c → ∀ n,
+      lookupLast (fixedPairs names c) n = if n ∈ names then (f n).map some else none := by
+  intro names
+  induction names with
+  | nil => intro c _ h n; cases c <;> simp [fixedPairs, lookupLast_nil]
+  | cons k ks ih =>
+    intro c hnd h n
+    cases c with
+    | nil => simp [AllGood] at h
+    | cons x cs =>
+      obtain ⟨b, v⟩ := x
+      obtain ⟨hk, hks⟩ := List.nodup_cons.mp hnd
+      obtain ⟨⟨hb, hv⟩, hrest⟩ := h
+      have ihn := ih cs hks hrest n
+      cases b with
+      | true =>
+        simp only [fixedPairs]
+        by_cases hkn : k = n
+        · subst hkn
+          rw [lookupLast_cons_of_notin _ _ _ _ (fun p hp he => hk (by rw [← he]; exact fixedPairs_keys ks cs p hp))]
+          simp only [if_true, List.mem_cons, true_or]
+          have : (f k).isSome = true := by simpa using hb.symm
+          obtain ⟨w, hw⟩ := Option.isSome_iff_exists.mp this
+          have hvw : v = w := hv w hw
+          rw [hw, hvw]; rfl
+        · rw [lookupLast_cons_ne _ _ _ _ hkn, ihn]
+          have : (n ∈ k :: ks) ↔ n ∈ ks := by
+            simp only [List.mem_cons]; constructor
+            · rintro (h | h); exact absurd h.symm hkn; exact h
+            · exact Or.inr
+          simp only [this]
+      | false =>
+        simp only [fixedPairs]
+        rw [ihn]
+        by_cases hkn : k = n
+        · subst hkn
+          have hnone : f k = none := by
+            cases hf : f k with
+            | none => rfl
+            | some w => simp [hf] at hb
+          simp [hk, hnone]
+        · have : (n ∈ k :: ks) ↔ n ∈ ks := by
+            simp only [List.mem_cons]; constructor
+            · rintro (h | h); exact absurd h.symm hkn; exact h
+            · exact Or.inr
+          simp only [this]
+
+/-- one change of the parameter list: afterwards the hidden state describes the old fixed name-value pairs
+    restricted to the names that were parameters — if the list did not change nothing happens, if its length
+    changed the remembered pairs are fixed again on the new list -/
+theorem boundary_good (g : α) (f : String → Option α) (namesOld namesNew : List String) (st : St α)
+    (hnd : namesOld.Nodup) (hok : namesNew = namesOld ∨ namesNew.length ≠ namesOld.length)
+    (h : AllGood f namesOld (view namesOld g st)) :
+    AllGood (keep f namesOld) namesNew (view namesNew g (resize g namesOld namesNew st)) := by
+  rcases hok with heq | hlen
+  · subst heq
+    unfold resize
+    rw [if_pos rfl]
+    exact allGood_congr f _ namesNew _ (fun n hn => by simp [keep, hn]) h
+  unfold resize
+  rw [if_neg hlen]
+  cases st with
+  | none =>
+    have hfree : ∀ n ∈ namesOld, f n = none := by
+      intro n hn
+      have hz := lookupLast_fixedPairs f namesOld _ hnd h n
+      simp only [view] at hz
+      have hp : fixedPairs namesOld (namesOld.map (fun _ => (false, g))) = ([] : Req α) :=
+        fixedPairs_allFree g namesOld
+      rw [hp, lookupLast_nil, if_pos hn] at hz
+      cases hf : f n with
+      | none => rfl
+      | some w => simp [hf] at hz
+    have : keep f namesOld = fun _ => none := by
+      funext n; unfold keep; by_cases hn : n ∈ namesOld <;> simp [hn, hfree]
+    rw [this]
+    exact allGood_init g namesNew
+  | some c =>
+    have hstep := step_good namesNew g none (fun _ => none) (fixedPairs namesOld c) (allGood_init g namesNew)
+    have hnet : netStep (fun _ => none) (fixedPairs namesOld c) = keep f namesOld := by
+      funext n
+      simp only [netStep]
+      rw [lookupLast_fixedPairs f namesOld c hnd (by simpa [view] using h) n]
+      unfold keep
+      by_cases hn : n ∈ namesOld
+      · simp only [hn, if_true]; cases f n <;> rfl
+      · simp [hn]
+    rw [hnet] at hstep
+    exact hstep
+
+end Seg
+
+/-- the lives the theorem speaks about: parameter names are distinct, and a change of the parameter list
+    changes its length (chi: a different number of individuals of a heterogeneous block) or nothing -/
+def SegsOK : List String → List (Seg α) → Prop
+  | _, [] => True
+  | prev, s :: ss => s.1.Nodup ∧ (s.1 = prev ∨ s.1.length ≠ prev.length) ∧ SegsOK s.1 ss
+
+/-- C08 over a life in which the number of modelled individuals changes (`set_n_ids`, a hierarchical
+    likelihood built over the model, the controller receiving the model): after ANY number of stretches of fix /
+    re-fix / release calls, separated by ANY changes of the parameter list, the hidden state describes —
+    position by position of the CURRENT list — exactly the net dictionary of the life. -/
+theorem C08_resized_history (g : α) (first : Seg α) (rest : List (Seg α))
+    (hnd : first.1.Nodup) (hok : SegsOK first.1 rest) :
+    (runSegs g first rest).1 = (netSegs first rest).1 ∧
+    AllGood (netSegs first rest).2 (runSegs g first rest).1
+      (view (runSegs g first rest).1 g (runSegs g first rest).2) := by
+  suffices H : ∀ (rest : List (Seg α)) (acc : List String × St α) (accf : List String × (String → Option α)),
+      acc.1 = accf.1 → acc.1.Nodup → SegsOK acc.1 rest → AllGood accf.2 acc.1 (view acc.1 g acc.2) →
+      (rest.foldl (segStep g) acc).1 = (rest.foldl netSegStep accf).1 ∧
+      AllGood (rest.foldl netSegStep accf).2 (rest.foldl (segStep g) acc).1
+        (view (rest.foldl (segStep g) acc).1 g (rest.foldl (segStep g) acc).2) from
+    H rest _ _ rfl hnd hok (C08_history_independent first.1 g first.2)
+  intro rest
+  induction rest with
+  | nil => intro acc accf he _ _ h; exact ⟨he, h⟩
+  | cons s ss ih =>
+    intro acc accf he hnd hok h
+    obtain ⟨hs, hb, hrest⟩ := hok
+    simp only [List.foldl_cons]
+    refine ih (segStep g acc s) (netSegStep accf s) rfl hs hrest ?_
+    show AllGood (s.2.foldl netStep (keep accf.2 accf.1)) s.1
+      (view s.1 g (s.2.foldl (fixStep s.1 g) (resize g acc.1 s.1 acc.2)))
+    rw [← he]
+    exact Seg.fold_good s.1 g s.2 _ _ (Seg.boundary_good g accf.2 acc.1 s.1 acc.2 hnd hb h)
+
+/-- … hence exact substitution, restricted sensitivities, names and counts after such a life -/
+theorem C08_resized_observables {β γ : Type} (g : α) (first : Seg α) (rest : List (Seg α))
+    (hnd : first.1.Nodup) (hok : SegsOK first.1 rest) (F : List α → β) (free : List α) (grad : List γ) :
+    let names := (runSegs g first rest).1
+    let st := (runSegs g first rest).2
+    let f := (netSegs first rest).2
+    evalReduced names g st F free = F (substitute f names free) ∧
+    restrict (view names g st) grad = restrictSpec f names grad ∧
+    restrict (view names g st) names = freeNames f names ∧
+    nFree (view names g st) = (freeNames f names).length ∧
+    nFixed (view names g st) + nFree (view names g st) = names.length := by
+  have h := (C08_resized_history g first rest hnd hok).2
+  refine ⟨?_, restrict_eq_spec _ _ _ grad h, ?_, nFree_eq _ _ _ h⟩
+  · unfold evalReduced
+    rw [fill_eq_substitute _ _ _ free h]
+  · rw [restrict_eq_spec _ _ _ _ h]
+    exact restrictSpec_self _ _
+
+/-- the seeded slip C08-12: the names of the NEW list are zipped with the OLD mask / values.  Witness: a
+    Gaussian, a heterogeneous and a pooled dimension, the pooled parameter fixed, 3 → 2 individuals: the
+    positional pairing forgets the fixed parameter, the by-name carry-over keeps it. -/
+def resizeZipNew (garbage : α) (namesOld namesNew : List String) (st : St α) : St α :=
+  if namesNew.length = namesOld.length then st
+  else match st with
+    | none => none
+    | some c => fixStep namesNew garbage none (fixedPairs namesNew c)
+
+theorem C08_resize_positional_counterexample :
+    let old := ["Mean a", "Std. a", "ID 1 b", "ID 2 b", "ID 3 b", "Pooled c"]
+    let new := ["Mean a", "Std. a", "ID 1 b", "ID 2 b", "Pooled c"]
+    let st : St Nat := run old 0 [[("Pooled c", some 4)]]
+    restrict (view new 0 (resize 0 old new st)) new = ["Mean a", "Std. a", "ID 1 b", "ID 2 b"] ∧
+    restrict (view new 0 (resizeZipNew 0 old new st)) new = new := by
+  decide
+
+example : (runSegs (0 : Nat) (["m", "ID 1", "ID 2", "p"], [[("p", some 4), ("ID 2", some 7)]])
+      [(["m", "ID 1", "p"], [[("m", some 1)], [("m", none)]]), (["m", "ID 1", "ID 2", "ID 3", "p"], [])]).2
+    = some [(false, 0), (false, 0), (false, 0), (false, 0), (true, 4)] := by decide
+
 
 end ChiModel.Reduced
